@@ -1283,3 +1283,104 @@ def lru_gen(rng, maxlen=16):
 
 def lru_request(cfg, req):
     return "lru %d %d %d %d %s" % (cfg["cap"], cfg["num"], cfg["den"], 1 if cfg["alert"] else 0, " ".join(req))
+
+
+# ====================================================================== small helpers of util/_collections.py
+def misc_helper_checks(rng, n=300):
+    """reference checks (oracle only) for the small collection helpers that sit beside the four
+    classes: FacadeDict, UniqueAppender, has_dupes, flatten_iterator, to_list/to_set,
+    update_copy, merge_lists_w_ordering, coerce_to_immutabledict, PopulateDict, Properties.
+    Returns [(key, case, detail)]."""
+    from sqlalchemy.util import _collections as C
+
+    out = []
+
+    def bad(name, case, detail):
+        out.append(("util-%s" % name, {"kind": "misc", "name": name, "case": case}, detail))
+
+    for _ in range(n):
+        seq = [rng.randrange(5) for _ in range(rng.randint(0, 7))]
+        objs = [[] for _ in range(5)]  # distinct objects that all compare (and print) equal, unhashable
+        oseq = [objs[i] for i in seq]
+        # has_dupes: identity based "occurs more than once"
+        for t in range(5):
+            exp = seq.count(t) > 1
+            if C.has_dupes(oseq, objs[t]) is not exp:
+                bad("has_dupes", [seq, t], "expected %s" % exp)
+        # UniqueAppender: identity-unique append, order kept
+        data = []
+        ua = C.UniqueAppender(data)
+        for o in oseq:
+            ua.append(o)
+        if [id(o) for o in data] != [id(objs[i]) for i in ref_first_occ(seq)] or list(ua) != data:
+            bad("UniqueAppender", seq, "kept %d objects, expected %d" % (len(data), len(set(seq))))
+        # flatten_iterator / to_list / to_set / update_copy
+        nested = [seq[:2], tuple(seq[2:4]), (x for x in seq[4:6]), seq[6:]]
+        if list(C.flatten_iterator(nested)) != seq:
+            bad("flatten_iterator", seq, "")
+        if list(C.flatten_iterator(["ab", ["cd", ["e"]]])) != ["ab", "cd", "e"]:
+            bad("flatten_iterator-strings", [], "")
+        if C.to_list(None) is not None or C.to_list(None, default=[1]) != [1] or C.to_list(3) != [3] or C.to_list("ab") != ["ab"]:
+            bad("to_list", [], "scalars")
+        l = list(seq)
+        if C.to_list(l) is not l or C.to_list(tuple(seq)) != seq or C.to_set(seq) != set(seq) or C.to_set(None) != set():
+            bad("to_list", seq, "iterables")
+        d = {i: i for i in seq}
+        d2 = C.update_copy(d, {9: 9}, x=1)
+        if d2 != dict(d, **{"x": 1}) | {9: 9} or d2 is d or d != {i: i for i in seq}:
+            bad("update_copy", seq, repr(d2))
+        # merge_lists_w_ordering: every element once, relative order of each input respected
+        # for elements appearing in only one of them / common elements keep a's relative order
+        a = ref_first_occ([rng.randrange(8) for _ in range(rng.randint(0, 6))])
+        b = ref_first_occ([rng.randrange(8) for _ in range(rng.randint(0, 6))])
+        m = C.merge_lists_w_ordering(list(a), list(b))
+        if sorted(m) != sorted(set(a) | set(b)) or len(m) != len(set(m)):
+            bad("merge_lists_w_ordering-members", [a, b], repr(m))
+        else:
+            only_a = [x for x in m if x in a]
+            if [x for x in only_a if x not in b] != [x for x in a if x not in b]:
+                bad("merge_lists_w_ordering-order-a", [a, b], repr(m))
+            if [x for x in m if x in b and x not in a] != [x for x in b if x not in a]:
+                bad("merge_lists_w_ordering-order-b", [a, b], repr(m))
+    # FacadeDict: not publicly mutable, _insert_item works, copy raises
+    fd = C.FacadeDict()
+    fd._insert_item("a", 1)
+    for name, f in [("setitem", lambda: fd.__setitem__("b", 2)), ("delitem", lambda: fd.__delitem__("a")), ("clear", fd.clear),
+                    ("pop", lambda: fd.pop("a")), ("popitem", fd.popitem), ("setdefault", lambda: fd.setdefault("c", 1)),
+                    ("update", lambda: fd.update({"d": 1}))]:
+        try:
+            f()
+            bad("FacadeDict-" + name, [], "mutator did not raise")
+        except TypeError:
+            pass
+        except Exception as e:  # noqa: BLE001
+            bad("FacadeDict-" + name, [], repr(e))
+    if dict(fd) != {"a": 1}:
+        bad("FacadeDict-contents", [], repr(dict(fd)))
+    try:
+        fd.copy()
+        bad("FacadeDict-copy", [], "copy() did not raise")
+    except NotImplementedError:
+        pass
+    # coerce_to_immutabledict / EMPTY_DICT
+    e = C.coerce_to_immutabledict({})
+    i1 = C.immutabledict({1: 2})
+    if e is not C.EMPTY_DICT or C.coerce_to_immutabledict(i1) is not i1 or C.coerce_to_immutabledict({1: 2}) != i1 or type(C.coerce_to_immutabledict({1: 2})) is not C.immutabledict:
+        bad("coerce_to_immutabledict", [], "")
+    # PopulateDict / Properties
+    calls = []
+    pd = C.PopulateDict(lambda k: calls.append(k) or k * 2)
+    if (pd[3], pd[3], pd[4], calls, dict(pd)) != (6, 6, 8, [3, 4], {3: 6, 4: 8}):
+        bad("PopulateDict", [], repr((calls, dict(pd))))
+    pr = C.OrderedProperties()
+    pr["b"] = 1
+    pr.a = 2
+    if (list(pr), pr.keys(), pr.b, pr["a"], "a" in pr, len(pr), pr.get("z", 5)) != ([1, 2], ["b", "a"], 1, 2, True, 2, 5):
+        bad("Properties", [], repr(pr.items()))
+    ro = pr.as_readonly()
+    try:
+        ro["c"] = 1
+        bad("ReadOnlyProperties", [], "setitem did not raise")
+    except TypeError:
+        pass
+    return out
